@@ -48,7 +48,7 @@ func c03Gen(r *rand.Rand, tier string) []spec.Case {
 			lineLen += len("|true")
 		}
 		lineLen++ // newline
-		offs := []int{0, 1, 2, 3, 4, 6, 9, 15, 26, 27, lineLen - 7, lineLen - 2, lineLen - 1, lineLen}
+		offs := []int{0, 1, 2, 3, 4, 6, 9, 15, 26, 27, 28, 29, 30, lineLen - 7, lineLen - 2, lineLen - 1, lineLen}
 		if tier == "thorough" {
 			offs = nil
 			for k := 0; k <= lineLen; k++ {
@@ -62,7 +62,7 @@ func c03Gen(r *rand.Rand, tier string) []spec.Case {
 		}
 		nrand := 6
 		if tier == "thorough" {
-			nrand = 330
+			nrand = 1000
 		}
 		for i := 0; i < nrand; i++ {
 			add(proto, "random-instant", "kill", r.Intn(800))
@@ -163,6 +163,19 @@ func c03Judge(c spec.Case, evs []spec.Event, d *Death) CaseResult {
 		if cl.Ms > 8000 {
 			res.Slow = fmt.Sprintf("%s took %d ms", cl.Op, cl.Ms)
 		}
+	}
+	// a Start that already failed must keep failing (the plugin is dead, nothing was accepted)
+	preStartFailed, postStartOK := false, false
+	for _, cl := range o.Calls {
+		if cl.Op == "Start" && cl.Phase == "pre" && cl.Returned && !cl.OK {
+			preStartFailed = true
+		}
+		if cl.Op == "Start" && cl.Phase == "post" && cl.Returned && cl.OK {
+			postStartOK = true
+		}
+	}
+	if preStartFailed && postStartOK {
+		viol("start-succeeds-after-failed-start", "Start failed while the plugin died mid handshake, but a later Start on the same client returned success")
 	}
 	if !o.ExitedTrue {
 		viol("exited-never-true", "Exited() was still false 24 s after the plugin process died")
